@@ -166,11 +166,11 @@ func mapTourCfgs(kind string, quick bool) []mapCfg {
 	}
 	switch kind {
 	case "redblacktree", "avltree":
-		return []mapCfg{{"nat", "", 0, q(7, 9), 0}, {"revx", "", 0, q(5, 7), 0}, {"half", "", 0, q(7, 9), 0}, {"natx", "", 0, q(4, 6), 0},
+		return []mapCfg{{"nat", "", 0, q(7, 10), 0}, {"revx", "", 0, q(5, 8), 0}, {"half", "", 0, q(7, 11), 0}, {"natx", "", 0, q(4, 7), 0},
 			{"dflt", "", 0, 5, 0}}
 	case "btree":
-		return []mapCfg{{"nat", "", 3, q(8, 10), 0}, {"nat", "", 4, q(7, 9), 0}, {"nat", "", 5, q(8, 9), 0},
-			{"nat", "", 6, q(8, 9), 0}, {"revx", "", 3, q(5, 7), 0}, {"half", "", 3, q(7, 9), 0}, {"halfx", "", 4, q(7, 9), 0}, {"dflt", "", 3, 5, 0}}
+		return []mapCfg{{"nat", "", 3, q(8, 11), 0}, {"nat", "", 4, q(7, 10), 0}, {"nat", "", 5, q(8, 10), 0},
+			{"nat", "", 6, q(8, 10), 0}, {"natx", "", 7, q(8, 10), 0}, {"revx", "", 3, q(5, 7), 0}, {"half", "", 3, q(7, 9), 0}, {"halfx", "", 4, q(7, 9), 0}, {"dflt", "", 3, 5, 0}}
 	case "treemap":
 		return []mapCfg{{"nat", "", 0, q(5, 7), 0}, {"revx", "", 0, q(4, 6), 0}, {"half", "", 0, q(5, 7), 0}, {"dflt", "", 0, 5, 0}}
 	case "hashmap", "linkedhashmap":
